@@ -67,6 +67,7 @@ def keyKind? : Sexp → Option Gms.PhysKeys.KeyKind
   | .atom "r" => some .raw
   | .atom "c" => some .ci
   | .atom "n" => some .num
+  | .atom "z" => some .numZ
   | _ => none
 
 /-- `(kinds (r c r) (r n r) …)`: the kind of every column of every table (keq stream). -/
